@@ -76,8 +76,9 @@ def has_dynamic_leaf(t):
 def int_leaf(t):
     """some leaf is stored by the implementation as an integer-dtype array"""
     if t[0] == "T":
-        return t[5] in ("int", "ndarray_int") and all(
-            Fraction(x).denominator == 1 for (n, d) in t[4] for x in n + d)
+        # build_leaf decides per coefficient list (the constructor keeps the dtype of each array)
+        return t[5] in ("int", "ndarray_int") and any(
+            all(Fraction(x).denominator == 1 for x in lst) for (n, d) in t[4] for lst in (n, d))
     return any(int_leaf(t[i]) for i in children(t))
 
 
@@ -88,6 +89,21 @@ def ops_in(t, acc=None):
     for i in children(t):
         ops_in(t[i], acc)
     return acc
+
+
+def floor_log2(v):
+    """floor(log2 |v|) of a nonzero Fraction"""
+    v = abs(Fraction(v))
+    e = v.numerator.bit_length() - v.denominator.bit_length()
+    if Fraction(2) ** e > v:
+        e -= 1
+    return e
+
+
+# relative size 2^-k of a perturbation: around and far on both sides of the usual "close enough"
+# thresholds (numpy.allclose: rtol 1e-5 ~ 2^-17, atol 1e-8 ~ 2^-27; float eps 2^-52)
+# (small k matters for the tiny-magnitude classes: 3*2^-30 vs 5*2^-30 differ by < 1e-8)
+NEAR_K = (1, 3, 6, 10, 14, 17, 18, 18, 20, 20, 22, 24, 24, 27, 30, 30, 34, 40, 45)
 
 
 def classify_exc(e):
@@ -210,13 +226,22 @@ class C01(Family):
     prop = "C01"
     externals = ["numpy.polymul/polyadd (exact counterparts in the model, validated by the same runs)"]
     assumptions = [
-        "IEEE arithmetic is exact on the generated integer/dyadic coefficients while every "
-        "intermediate stays below 2^50 (the model reports the largest bit length; larger cases are "
-        "compared to a relative tolerance of 1e-9)",
+        "binary64 arithmetic of the implementation is exact whenever the model-side audit passes "
+        "(Driver/TFAudit.lean: for every primitive sum of every polymul/polyadd/scaling of the tree all "
+        "terms are multiples of 2^e and their absolute sum is < 2^(e+53), so no order of summation can "
+        "round); then results are compared exactly.  Where an integer-dtype array is involved exact "
+        "comparison additionally needs every intermediate below 2^50.  Otherwise: legacy streams are "
+        "compared to a relative tolerance of 1e-9, cases of the near-equal stream are not judged "
+        "(histogram key near=not-judged(rounding)), and a zero-denominator disagreement is not judged",
         "the timebase of results is checked by C05; C01 uses operands with compatible timebases"]
     rule = ("random expression trees over TransferFunction leaves (shapes {1,2,3}^2, degree<=3, "
             "coefficients -4..4, zero numerators, static gains, improper entries, int/float/ndarray "
-            "input forms), scalars and arrays on either side; a case is non-trivial when it has a "
+            "input forms), scalars and arrays on either side; plus a near-equal stream (case key "
+            "'near'): every leaf entry is a dyadic perturbation (relative 2^-1 .. 2^-45, or exactly "
+            "equal) of one or two base fractions whose coefficients are normal, tiny (2^-27..2^-40: "
+            "tail, leading or all coefficients) or large (2^10..2^24), used in operator trees, SISO "
+            "pairs, near-singular feedback loops (H ~ sign/G), near-cancelling differences as "
+            "divisors, and row*column products; a case is non-trivial when it has a "
             "dynamic leaf, at least one binary operator, and the model result is a non-constant system; "
             "distinct = distinct canonical serialisation")
 
@@ -231,6 +256,135 @@ class C01(Family):
         if rng.random() < 0.8 and c[0] == 0 and nonzero:
             c[0] = rng.choice([-2, -1, 1, 2])
         return [str(x) for x in c]
+
+    # -- near-equal / small-magnitude coefficients (dyadic, so the arithmetic stays exact) --
+    def near_poly(self, rng, deg, nonzero):
+        """small-integer polynomial whose coefficients are moved to a magnitude class"""
+        c = [Fraction(int(x)) for x in self.rnd_coeffs(rng, deg, nonzero)]
+        mode = rng.choice(["normal"] * 6 + ["tiny_tail", "tiny_tail", "all_tiny", "large",
+                                             "large_tail", "tiny_lead"])
+        s = Fraction(2) ** rng.choice([27, 28, 30, 33, 36, 40])
+        L = Fraction(2) ** rng.choice([10, 16, 20, 24])
+        if mode == "tiny_tail":
+            c = c[:1] + [x / s for x in c[1:]]
+        elif mode == "all_tiny":
+            c = [x / s for x in c]
+        elif mode == "large":
+            c = [x * L for x in c]
+        elif mode == "large_tail":
+            c = c[:1] + [x * L for x in c[1:]]
+        elif mode == "tiny_lead":
+            c = [c[0] / s] + c[1:]
+        return c
+
+    def near_ctx(self, rng, kmax=45):
+        """one or two base fractions; every leaf entry of the tree is a small perturbation of one.
+        `kmax` bounds the relative fineness 2^-k so that the arithmetic of the template mostly
+        stays within 53 bits (the model's audit decides case by case)"""
+        bases = []
+        for _ in range(rng.choice([1, 1, 2])):
+            dn = rng.choice([1, 1, 1, 2, 2, 3])
+            nn = rng.choice([0, 0, 0, 1, 1, 2])
+            bases.append((self.near_poly(rng, nn, True), self.near_poly(rng, dn, True)))
+        ks = [k for k in NEAR_K if k <= kmax]
+        return {"bases": bases, "ks": ks, "k": rng.choice(ks), "fixk": rng.random() < 0.7}
+
+    def near_perturb(self, rng, poly, ctx, force=True):
+        out = list(poly)
+        if rng.random() < 0.5:
+            idx = [rng.randrange(len(out))]
+        else:
+            idx = [i for i in range(len(out)) if rng.random() < 0.6]
+        if force and not idx:
+            idx = [rng.randrange(len(out))]
+        for i in idx:
+            k = ctx["k"] if ctx["fixk"] else rng.choice(ctx["ks"])
+            j = rng.choice([-3, -1, 1, 1, 3, 5])
+            if out[i] == 0:
+                if rng.random() < 0.5:       # a zero coefficient becomes a tiny one
+                    out[i] = Fraction(j) / 2 ** rng.choice([27, 30, 36, 45])
+            else:
+                out[i] = out[i] + Fraction(j) * Fraction(2) ** (floor_log2(out[i]) - k)
+        return out
+
+    def near_entry(self, rng, ctx):
+        num, den = ctx["bases"][0] if rng.random() < 0.75 else rng.choice(ctx["bases"])
+        r = rng.random()
+        if ctx.get("plain"):
+            pass
+        elif r < 0.55 or ctx.get("den_only"):
+            den = self.near_perturb(rng, den, ctx)
+        elif r < 0.7:
+            num = self.near_perturb(rng, num, ctx)
+        elif r < 0.85:
+            num, den = self.near_perturb(rng, num, ctx), self.near_perturb(rng, den, ctx)
+        if rng.random() < 0.04:
+            num = [Fraction(0)] * len(num)
+        return [[tok(x) for x in num], [tok(x) for x in den]]
+
+    def near_leaf(self, rng, shape, dt, ctx):
+        p, m = shape
+        ents = [self.near_entry(rng, ctx) for _ in range(p * m)]
+        ldt = dt if rng.random() < 0.8 else "N"
+        # float storage only: the exactness audit of the model is about binary64 arithmetic
+        return ["T", p, m, ldt, ents, rng.choice(["float", "ndarray_float", "nested"])]
+
+    def near_case(self, rng, tier):
+        """trees whose leaves have near-equal (or exactly equal) denominators / numerators, tiny or
+        large coefficients, near-singular loops and near-cancelling differences"""
+        dt = rng.choice(["C", "C", "C", "N", "T", DT01, "D1/4"])
+        r = rng.random()
+        if r < 0.35:     # any operator tree over near-equal leaves
+            depth = rng.choice([1, 1, 1, 2]) if tier == "quick" else rng.choice([1, 1, 2, 2, 3])
+            ctx = self.near_ctx(rng, 24 if depth == 1 else 12)
+            shape = (1, 1) if rng.random() < 0.4 else self.rshape(rng)
+            t = self.gen(rng, depth, shape, dt, {"near": ctx})
+            if t[0] == "T":
+                t = [rng.choice(["add", "sub"]), t, self.near_leaf(rng, shape, dt, ctx)]
+            return t
+        if r < 0.6:      # one operator on a near-equal SISO pair
+            op = rng.choice(["add", "add", "add", "sub", "sub", "mul", "div", "fb"])
+            ctx = self.near_ctx(rng, 45 if op in ("add", "sub") else 24)
+            a, b = (self.near_leaf(rng, (1, 1), dt, ctx) for _ in range(2))
+            if op == "fb":
+                return ["fb", rng.choice(["-1", "1", "2", "-1/2"]), rng.choice(["method", "func"]), a, b]
+            return [op, a, b]
+        if r < 0.73:     # near-singular loop: H ~ sign / G, so 1 - sign*H*G is tiny but not zero
+            ctx = self.near_ctx(rng, 45)
+            sign = rng.choice(["1", "-1", "-1", "2", "-1/2"])
+            a = self.near_leaf(rng, (1, 1), dt, ctx)
+            n, d = ([Fraction(x) for x in v] for v in a[4][0])
+            if all(x == 0 for x in n):
+                n = [Fraction(1)]
+                a = ["T", 1, 1, a[3], [[["1"], a[4][0][1]]], a[5]]
+            hn = [x / Fraction(sign) for x in d]
+            if rng.random() < 0.85:
+                hn = self.near_perturb(rng, hn, ctx)
+            h = ["T", 1, 1, a[3], [[[tok(x) for x in hn], [tok(x) for x in n]]], "float"]
+            return ["fb", sign, rng.choice(["method", "func"]), a, h]
+        if r < 0.86:     # a near-cancelling difference used as divisor / operand
+            ctx = self.near_ctx(rng, 14)
+            g = lambda: self.near_leaf(rng, (1, 1), dt, ctx)
+            d1 = ["sub", g(), g()]
+            q = rng.random()
+            if q < 0.35:
+                return ["div", g(), d1]
+            if q < 0.55:
+                return ["pow", -1, d1]
+            if q < 0.8:
+                return ["div", d1, ["sub", g(), g()]]
+            return [rng.choice(["mul", "add"]), d1, g()]
+        # row * column / matrix sum: the entry sums meet near-equal denominators
+        ctx = self.near_ctx(rng, 22)
+        k = rng.choice([2, 2, 2, 3])
+        p, m = rng.choice([(1, 1), (1, 1), (2, 1), (1, 2), (2, 2)])
+        other = dict(ctx, plain=True) if rng.random() < 0.7 else dict(ctx, den_only=True)
+        G = self.near_leaf(rng, (p, k), dt, dict(ctx, den_only=True))
+        H = self.near_leaf(rng, (k, m), dt, other)
+        if rng.random() < 0.25:
+            H = self.array(rng, (k, m))
+        return ["mul", G, H] if rng.random() < 0.7 else ["mul", H, self.near_leaf(
+            rng, (m, k), dt, dict(ctx, den_only=True))]
 
     def leaf(self, rng, shape, dt, big=False):
         p, m = shape
@@ -276,6 +430,8 @@ class C01(Family):
         """tree of the requested shape (mostly valid)"""
         p, m = shape
         if depth <= 0 or rng.random() < 0.2:
+            if st.get("near"):
+                return self.near_leaf(rng, shape, dt, st["near"])
             return self.leaf(rng, shape, dt, st.get("big", False))
         ops = ["add", "add", "sub", "mul", "mul", "neg", "div", "sel"]
         if p == m:
@@ -412,6 +568,10 @@ class C01(Family):
             dt = rng.choice(["C", "C", "C", "N", "T", DT01, "D1/4"])
             depth = rng.choice([1, 2, 2, 3, 3]) if maxd == 3 else rng.choice([1, 2, 3, 3, 4, 5])
             out.append({"tree": self.gen(rng, depth, self.rshape(rng), dt, {})})
+        # near-equal / small-magnitude stream (own generator state: the streams above are unchanged)
+        rng2 = __import__("random").Random(rng.random())
+        for i in range(170 if tier == "quick" else 2600):
+            out.append({"tree": self.near_case(rng2, tier), "near": True})
         return out
 
     def corpus(self):
@@ -443,10 +603,18 @@ class C01(Family):
 
     def parse_model(self, case, out):
         if out.startswith("err "):
-            return {"err": out.split()[1]}
+            w = out.split()
+            return {"err": w[1], "fx": w[2] == "fx=1"}
         tk = Tokens(out)
         assert tk.next() == "ok"
         bits = int(tk.next().split("=")[1])
+        fx = tk.next()
+        assert fx in ("fx=0", "fx=1"), out[:80]
+        res = self._parse_ok(tk, bits)
+        res["fx"] = fx == "fx=1"
+        return res
+
+    def _parse_ok(self, tk, bits):
         kind = tk.next()
         if kind == "tf":
             p, m, dt = tk.nat(), tk.nat(), tk.next()
@@ -461,7 +629,7 @@ class C01(Family):
         if kind == "array":
             p, m = tk.nat(), tk.nat()
             return {"ok": {"type": "array", "p": p, "m": m, "v": [tk.next() for _ in range(p * m)]}, "bits": bits}
-        raise ValueError(out)
+        raise ValueError(kind)
 
     def features(self, case, kind, impl, model=None):
         t = case["tree"]
@@ -472,15 +640,33 @@ class C01(Family):
             feat["msg"] = re.sub(r"[0-9]+", "#", impl["exc"].split(":", 1)[1].strip())[:60]
         else:
             feat["ops"] = "+".join(sorted(set(ops_in(t)))) or "leaf"
+        if case.get("near"):
+            feat["cls"] = "near"
         if kind == "value-big":
             # integer-dtype coefficient arrays whose exact product leaves the int64 range
             feat["int64_overflow"] = bool(int_leaf(t) and model is not None and model.get("bits", 0) > 62)
         return feat
 
+    def exact_regime(self, case, model):
+        """the implementation's arithmetic cannot have rounded: the model-side audit passed
+        (`fx`, Driver/TFAudit.lean); where an integer-dtype array is involved (int64 arithmetic,
+        known finding C01-int64-wrap) additionally every intermediate stays below 2^50"""
+        return bool(model.get("fx")) and (model.get("bits", 0) <= 50 or not int_leaf(case["tree"]))
+
+    def undecided(self, case, model):
+        """near-equal stream with rounding in the implementation: a fixed tolerance is not sound
+        for near-cancelling data (tiny differences, exact zero tests), so the case is not judged"""
+        return bool(case.get("near")) and not model.get("fx")
+
     def compare(self, case, impl, model):
         t = case["tree"]
+        if self.undecided(case, model):
+            return Verdict(AGREE)
         if "err" in model:
             if "err" in impl:
+                return Verdict(AGREE)
+            if model["err"] == "zeroDen" and not model.get("fx"):
+                # an exact cancellation of the model met rounded arithmetic: not judged
                 return Verdict(AGREE)
             if model["err"] in ("shape", "zeroDen", "indexRange"):
                 return Verdict(VIOLATES, "a system was returned where the result does not exist "
@@ -489,6 +675,9 @@ class C01(Family):
             return Verdict(DIFFERS, "model raises %s, implementation returns" % model["err"],
                            self.features(case, "returns-" + model["err"], impl))
         if "err" in impl:
+            if impl["err"] == "zeroDen" and not model.get("fx"):
+                # rounded arithmetic may cancel to an exact zero where the exact result is tiny
+                return Verdict(AGREE)
             return Verdict(VIOLATES, "implementation raises %s where the result exists" % impl["exc"],
                            self.features(case, "raises", impl))
         a, b = impl["ok"], model["ok"]
@@ -501,7 +690,7 @@ class C01(Family):
         if (a["p"], a["m"]) != (b["p"], b["m"]):
             return Verdict(VIOLATES, "shape %dx%d vs model %dx%d" % (a["p"], a["m"], b["p"], b["m"]),
                            self.features(case, "shape", impl))
-        exact_regime = model.get("bits", 0) <= 50
+        exact_regime = self.exact_regime(case, model)
         for k, ((n1, d1), (n2, d2)) in enumerate(zip(a["ent"], b["ent"])):
             n1, d1, n2, d2 = ([Fraction(x) for x in v] for v in (n1, d1, n2, d2))
             if exact.pzero(d1):
@@ -539,15 +728,26 @@ class C01(Family):
         if "ok" in model and model["ok"]["type"] == "tf":
             st["shape"] = "%dx%d" % (model["ok"]["p"], model["ok"]["m"])
             st["constant"] = not any(len(n) > 1 or len(d) > 1 for (n, d) in model["ok"]["ent"])
-            st["regime"] = "E" if model.get("bits", 0) <= 50 else "T"
+            st["regime"] = "E" if self.exact_regime(case, model) else "T"
             if "ok" in impl and impl["ok"].get("type") == "tf":
                 st["repr_equal"] = impl["ok"]["ent"] == model["ok"]["ent"]
         if "err" in model and "err" in impl:
             st["errkind_equal"] = impl["err"] == model["err"]
+        if case.get("near"):
+            st["near"] = "not-judged(rounding)" if self.undecided(case, model) else (
+                "err:" + model["err"] if "err" in model else
+                "exact" if self.exact_regime(case, model) else "tolerance")
+            st["near_root"] = t[0]
         return st
 
     # ---- shrinking / search ----------------------------------------------------
     def shrink(self, case):
+        for c in self._shrink(case):
+            if case.get("near"):
+                c["near"] = True
+            yield c
+
+    def _shrink(self, case):
         t = case["tree"]
         # replace the tree by a sub-tree
         def subtrees(t):
